@@ -124,6 +124,88 @@ func runTwice(c driver.Case) driver.Result {
 	return res
 }
 
+// Windows that rotate every few hundred microseconds under a fast asynchronous source and a consumer
+// that takes a moment per item: items of a key that were queued for the new window and items that
+// arrive while that window is being taken over must still come out in their original order, once.
+// (Quota formulas say nothing at this window length; order, duplicates and the terminal are judged.)
+func rotationPlan(tier string) []driver.Case {
+	reps := 4
+	if tier == "thorough" {
+		reps = 40
+	}
+	var cases []driver.Case
+	for i := 0; i < reps; i++ {
+		for _, w := range []int{300, 800} {
+			cases = append(cases, driver.Case{ID: fmt.Sprintf("native-rotation/w%dus/%d", w, i), P: map[string]string{"kind": "rotation", "w": fmt.Sprint(w), "rep": fmt.Sprint(i)}})
+		}
+	}
+	return cases
+}
+
+func runRotation(c driver.Case) driver.Result {
+	w := time.Duration(c.Int("w")) * time.Microsecond
+	res := driver.Result{Verdict: driver.Held}
+	const perKey, nk = 1500, 2
+	what := fmt.Sprintf("native limiter, quota 100000 per %v (windows rotate constantly), %d keys × %d items from a goroutine, consumer busy ~30µs per item", w, nk, perKey)
+	var mu sync.Mutex
+	var got []item
+	term := make(chan string, 1)
+	cold := ro.NewObservable(func(dest ro.Observer[item]) ro.Teardown {
+		go func() {
+			defer func() { recover() }()
+			for i := 0; i < perKey; i++ {
+				for k := 0; k < nk; k++ {
+					dest.Next(item{Key: keyName(k), Seq: i})
+				}
+			}
+			dest.Complete()
+		}()
+		return nil
+	})
+	sub := operator("native", 100000, w)(cold).Subscribe(ro.NewObserver(
+		func(it item) {
+			mu.Lock()
+			got = append(got, it)
+			mu.Unlock()
+			t0 := time.Now()
+			for time.Since(t0) < 30*time.Microsecond {
+			}
+		},
+		func(err error) { term <- "E:" + err.Error() },
+		func() { term <- "C" },
+	))
+	defer sub.Unsubscribe()
+	ended := ""
+	select {
+	case ended = <-term:
+	case <-time.After(30 * time.Second):
+	}
+	mu.Lock()
+	defer mu.Unlock()
+	res.Events = int64(len(got))
+	res.Nontrivial = len(got) > 0
+	res.Sig = "rotation/" + c.Get("w") + "/" + c.Get("rep")
+	last := map[string]int{}
+	for k := 0; k < nk; k++ {
+		last[keyName(k)] = -1
+	}
+	for i, it := range got {
+		if it.Seq <= last[it.Key] {
+			res.Verdict, res.Key = driver.Violated, "C20/native/order-broken-or-item-duplicated"
+			res.Msg = fmt.Sprintf("%s: delivery #%d is %v after item %d of that key had been delivered", what, i, it, last[it.Key])
+			return res
+		}
+		last[it.Key] = it.Seq
+	}
+	res.Sample = map[string]any{"limiter": "native", "window": w.String(), "items_delivered": len(got), "ended": ended}
+	if ended == "" {
+		// the recorded WindowWhen defects (a window missed by a racing completion) can keep the limiter from completing
+		res.Verdict, res.Key = driver.Violated, "C20/native/completion-not-propagated-under-constant-rotation"
+		res.Msg = what + ": the source completed, the output did not within 30 s"
+	}
+	return res
+}
+
 func runShared(c driver.Case) driver.Result {
 	q, streams, nk, rounds := c.Int("q"), c.Int("streams"), c.Int("nk"), c.Int("rounds")
 	res := driver.Result{Verdict: driver.Held}
